@@ -7,15 +7,33 @@
   the spooled event file of generator input since the repair of F7) lives below
   a directory managed by `bracket` (= `with tempfile.TemporaryDirectory(...)`).
 
-  ASSUMPTIONS (not proved; observed by the differential run: directory listing
-  and sha256 of every file before/after every call of the C01/C05 campaigns):
-    * `OnlyBelow d body` / `OnlyBelowC d body` for the REAL bodies
-      (`create_binary_event_files`, the learning kernels, `io.events_to_file`):
-      they create, overwrite and remove only entries at or below their
-      temporary directory, and open the input event file read-only.  It is a
-      hypothesis of `fs_clean` / `fs_clean_siblings` / `inputs_unchanged`, and is
-      PROVED only for the modelled bodies (`chunkBody`, `opsBody`: arbitrary
-      sequences of writes and removals of files in the directory).
+  WHAT IS PROVED AND WHAT IS NOT — read this before the theorems.
+  * What the theorems establish is the bracket discipline: `rmtree` on every
+    exit removes the temporary directory and everything below it, two sibling
+    brackets compose, the exit of the body reaches the caller.
+  * `OnlyBelow d body` / `OnlyBelowC d body` ("the body leaves every path that is
+    not at or below `d` as it was": same existence / same node and bytes) is,
+    modulo `rmtree`, the CONCLUSION of `fs_clean` / `fs_clean_contents`: these
+    two theorems say "if the body changes nothing outside its directory, the
+    bracket around it changes nothing at all".  They are hypotheses about the
+    REAL bodies (`create_binary_event_files`, the learning kernels,
+    `io.events_to_file`) and are NOT proved for them.
+  * `path_call_clean`, `generator_call_clean(_any_spool)`, `inputs_unchanged` and
+    `inputs_unchanged_generator` have NO such hypothesis: they are about the
+    modelled bodies `chunkBody` / `opsBody`, which can only ADDRESS paths of the
+    form `d ++ [name]` — so for them `OnlyBelow(C)` holds BY CONSTRUCTION of the
+    model (`chunkBody_onlyBelow`, `opsBody_onlyBelowC`).  These theorems show
+    that a body which only addresses paths below its directory cannot change
+    the input file or leave anything behind; they do not show that the real
+    bodies are such bodies.
+  * Hence: "the input event file is byte-for-byte unchanged" and "no entry
+    outside the temporary directory appears, disappears or changes" are
+    DECIDED BY THE DIFFERENTIAL RUN (directory listing and sha256 of every file
+    outside the temporary directory before and after every call of the C01/C05
+    campaigns, `harness/run_C17.py`), not by a theorem.  The Effects model is not
+    executed against the code by any driver op.
+
+  Further assumptions (not proved, same status):
     * `shutil.rmtree` (called by `TemporaryDirectory.__exit__`) succeeds and
       removes exactly the directory and everything below it (`rmtree`); and
       `Pool.terminate` leaves no worker writing after the `with` block.
@@ -32,11 +50,15 @@ import PyndlProofs.Effects
 namespace Pyndl.C17
 open Pyndl Pyndl.Effects List
 
-/-- **no temporary entry survives, whatever the exit**: for every body that
-    works only below its temporary directory and every exit of that body
+/-- **no temporary entry survives, whatever the exit — GIVEN that the body
+    changes nothing outside its directory** (`hb : OnlyBelow d body`, an
+    ASSUMPTION about the real bodies, see the file header: modulo `rmtree` it is
+    this theorem's conclusion).  For every such body and every exit of it
     (normal return, or an exception raised at any point — every fault kind and
     position of C05 is some body/exit pair), the set of existing paths after
-    the call equals the set before. -/
+    the call equals the set before: what the theorem adds to `hb` is that the
+    directory itself and everything the body left below it are removed on
+    every exit. -/
 theorem fs_clean (d : Path) (body : Path → World → World × Exit) (hb : OnlyBelow d body)
     (w : World) (hfresh : ∀ p ∈ w, below d p = false) (p : Path) :
     p ∈ (bracket d body w).1 ↔ p ∈ w :=
@@ -53,16 +75,20 @@ theorem old_spool_leaks (sysTmp : Path) (name : String) (d : Path) (body : Path 
   rw [hb _ _ hout]
   simp
 
-/-- **path input, concretely**: whatever chunk files `events_0_<i>.dat` the
-    conversion created in the temporary directory and however the call ended
-    (return, or an exception raised anywhere — any fault kind, position, byte
-    budget), the set of existing paths is the one before the call -/
+/-- **path input, for the modelled body** (`chunkBody`: it can only create
+    entries `d ++ [name]`, so it is below `d` BY CONSTRUCTION —
+    `chunkBody_onlyBelow`; no hypothesis about the real conversion): whatever
+    chunk files `events_0_<i>.dat` were created in the temporary directory and
+    however the call ended (return, or an exception raised anywhere — any fault
+    kind, position, byte budget), the set of existing paths is the one before
+    the call -/
 theorem path_call_clean (created : List String) (e : Exit) (d : Path) (w : World)
     (hfresh : ∀ p ∈ w, below d p = false) (p : Path) :
     p ∈ (bracket d (chunkBody created e) w).1 ↔ p ∈ w :=
   pathCall_clean created e d w hfresh p
 
-/-- **generator input, concretely** (after the repair of F7): the spool
+/-- **generator input, for the modelled bodies** (after the repair of F7; by
+    construction of `generatorCall`, as `path_call_clean`): the spool
     directory with `events.tab.gz` and the chunk directory are both gone, for
     every exit; the exit reaches the caller -/
 theorem generator_call_clean (s d : Path) (created : List String) (e : Exit) (w : World)
@@ -70,7 +96,8 @@ theorem generator_call_clean (s d : Path) (created : List String) (e : Exit) (w 
     (p ∈ (generatorCall s d created e w).1 ↔ p ∈ w) ∧ (generatorCall s d created e w).2 = e :=
   ⟨generatorCall_clean s d created e w hs hd p, generatorCall_exit s d created e w⟩
 
-/-- **generator input, the code's layout** (siblings): an outer temporary
+/-- **generator input, the code's layout** (siblings), GIVEN `OnlyBelow` of both
+    steps (`hf`, `hb`: assumptions about the real bodies, file header): an outer temporary
     directory `s`; a first step that works only below `s` and may raise
     (spooling the generator into `s/events.tab.gz`); then, only if it returned,
     a second bracket for a directory `d` that is neither below nor above `s`
@@ -84,7 +111,8 @@ theorem fs_clean_siblings (s d : Path) (first body : Path → World → World ×
     p ∈ (bracket s (fun s w => seqBody (first s) (bracket d body) w) w).1 ↔ p ∈ w :=
   bracket_siblings_clean s d first body hf hb hsd hds w hs hd p
 
-/-- **generator input, concretely, spooling may raise**: whatever files
+/-- **generator input, for the modelled bodies, spooling may raise** (no
+    hypothesis about real bodies: by construction of `generatorCallS`): whatever files
     `io.events_to_file` created in the spool directory before it returned or
     raised, whatever chunk files the learner then created and however it ended,
     the set of existing paths is the one before the call, and the caller sees
@@ -102,21 +130,28 @@ theorem generator_call_clean_any_spool (s d : Path) (spooled : List String) (spo
 /-! ## inputs untouched (worlds with contents) -/
 
 /-- **fs_clean with contents.** If the body leaves everything outside its
-    directory as it was (`OnlyBelowC`: the assumption on the real bodies) and
-    nothing existed at or below the fresh directory, then after the call EVERY
-    path has the node it had before: same existence, same kind, and for a file
-    the same bytes — for every exit. -/
+    directory as it was (`hb : OnlyBelowC d body` — the ASSUMPTION on the real
+    bodies; it is, restricted to paths outside `d`, this theorem's conclusion)
+    and nothing existed at or below the fresh directory, then after the call
+    EVERY path has the node it had before: same existence, same kind, and for a
+    file the same bytes — for every exit.  What the theorem adds to `hb`: the
+    paths at or below `d` are back to "absent" (`rmtreeC`). -/
 theorem fs_clean_contents (d : Path) (body : Path → FS → FS × Exit) (hb : OnlyBelowC d body)
     (fs : FS) (hfresh : ∀ p, below d p = true → fs.get p = none) (p : Path) :
     (bracketC d body fs).1.get p = fs.get p :=
   bracketC_clean d body hb fs hfresh p
 
-/-- **inputs_unchanged (path input).** The input event file — any file `inp`
-    with bytes `bytes` that exists before the call — has exactly those bytes
-    after a learner call whose body is any sequence of writes and removals of
-    files in the temporary directory followed by a return or a raise.  (For
-    the modelled bodies; that the real bodies are of this kind is the
-    assumption `OnlyBelowC`, see the file header.) -/
+/-- **inputs_unchanged (path input) — for the MODELLED bodies, by construction.**
+    The input event file — any file `inp` with bytes `bytes` that exists before
+    the call — has exactly those bytes after a call whose body is any sequence
+    of writes and removals of files `d/name` in the temporary directory
+    followed by a return or a raise.  There is NO `OnlyBelowC` hypothesis here:
+    `opsBody` can only address paths `d ++ [name]`, so it satisfies `OnlyBelowC`
+    by construction (`opsBody_onlyBelowC`).  The theorem shows that a body which
+    only addresses paths below its directory cannot change the input; that the
+    REAL bodies are such bodies — i.e. that the real input is byte-for-byte
+    unchanged — is decided by the differential run (sha256), see the file
+    header. -/
 theorem inputs_unchanged (d : Path) (ops : List Op) (e : Exit) (fs : FS)
     (hfresh : ∀ p, below d p = true → fs.get p = none)
     (inp : Path) (bytes : List UInt8) (hin : fs.get inp = some (.file bytes)) :
@@ -125,7 +160,8 @@ theorem inputs_unchanged (d : Path) (ops : List Op) (e : Exit) (fs : FS)
   refine ⟨?_, rfl⟩
   rw [bracketC_clean d _ (opsBody_onlyBelowC ops e d) fs hfresh inp, hin]
 
-/-- **inputs_unchanged (generator input, sibling directories).** Likewise for
+/-- **inputs_unchanged (generator input, sibling directories) — for the
+    MODELLED bodies, by construction** (as `inputs_unchanged`).  Likewise for
     the spool directory `s` (operations `spoolOps`, exit `spoolExit`) followed —
     if spooling returned — by the learner in the sibling directory `d`: every
     path, in particular every pre-existing file, has afterwards the node it
@@ -208,6 +244,86 @@ example := inputs_unchanged ["tmp", "pyndlB"] exOps .raised exFS
       rw [← hxp, h x hx] at hp
       cases hp)
   ["data", "events.tab.gz"] [0x1f, 0x8b, 0x08] (by decide +kernel)
+
+/-! ### every main theorem APPLIED with all hypotheses instantiated
+
+World `[tmp, data/events.tab.gz]`; spool directory `tmp/pyndlA`, chunk directory
+`tmp/pyndlB` (siblings).  `OnlyBelow` is discharged for the modelled bodies by
+`chunkBody_onlyBelow` / `spool_onlyBelow` (for real bodies it is an assumption). -/
+
+def exW : World := [["tmp"], ["data", "events.tab.gz"]]
+
+/-- `fs_clean` applied: a body that creates two chunk files and raises -/
+example (p : Path) :
+    p ∈ (bracket ["tmp", "pyndlB"] (chunkBody ["events_0_0.dat", "events_0_1.dat"] .raised) exW).1 ↔ p ∈ exW :=
+  fs_clean ["tmp", "pyndlB"] _ (chunkBody_onlyBelow _ _ _) exW (by decide) p
+
+/-- `path_call_clean` applied -/
+example (p : Path) :
+    p ∈ (bracket ["tmp", "pyndlB"] (chunkBody ["events_0_0.dat", "events_0_1.dat"] .raised) exW).1 ↔ p ∈ exW :=
+  path_call_clean ["events_0_0.dat", "events_0_1.dat"] .raised ["tmp", "pyndlB"] exW (by decide) p
+
+/-- `old_spool_leaks` applied: the spool file of the pinned tree, created in
+    `/tmp` outside any bracket, is still there after the call -/
+example : ["tmp", "tmpq1w2e3"] ∈
+    (spoolOld ["tmp"] "tmpq1w2e3" (bracket ["tmp", "pyndlB"] (chunkBody ["events_0_0.dat"] .returned)) exW).1 :=
+  old_spool_leaks ["tmp"] "tmpq1w2e3" ["tmp", "pyndlB"] _ (chunkBody_onlyBelow _ _ _) exW (by decide)
+
+/-- `generator_call_clean` applied -/
+example (p : Path) :
+    (p ∈ (generatorCall ["tmp", "pyndlA"] ["tmp", "pyndlB"] ["events_0_0.dat"] .raised exW).1 ↔ p ∈ exW) ∧
+    (generatorCall ["tmp", "pyndlA"] ["tmp", "pyndlB"] ["events_0_0.dat"] .raised exW).2 = .raised :=
+  generator_call_clean ["tmp", "pyndlA"] ["tmp", "pyndlB"] ["events_0_0.dat"] .raised exW (by decide) (by decide) p
+
+/-- `fs_clean_siblings` applied: spooling writes `events.tab.gz` and returns,
+    the learner creates a chunk file and raises -/
+example (p : Path) :
+    p ∈ (bracket ["tmp", "pyndlA"] (fun s w => seqBody
+          ((fun s w => (["events.tab.gz"].map (fun name => s ++ [name]) ++ w, Exit.returned)) s)
+          (bracket ["tmp", "pyndlB"] (chunkBody ["events_0_0.dat"] .raised)) w) exW).1 ↔ p ∈ exW :=
+  fs_clean_siblings ["tmp", "pyndlA"] ["tmp", "pyndlB"] _ _ (spool_onlyBelow ["events.tab.gz"] .returned _)
+    (chunkBody_onlyBelow _ _ _) (by decide) (by decide) exW (by decide) (by decide) p
+
+/-- `generator_call_clean_any_spool` applied: spooling raises after a half-written file -/
+example (p : Path) :
+    (p ∈ (generatorCallS ["tmp", "pyndlA"] ["tmp", "pyndlB"] ["events.tab.gz"] .raised
+          ["events_0_0.dat"] .returned exW).1 ↔ p ∈ exW) ∧
+    (generatorCallS ["tmp", "pyndlA"] ["tmp", "pyndlB"] ["events.tab.gz"] .raised
+          ["events_0_0.dat"] .returned exW).2 = .raised :=
+  generator_call_clean_any_spool ["tmp", "pyndlA"] ["tmp", "pyndlB"] ["events.tab.gz"] .raised
+    ["events_0_0.dat"] .returned exW (by decide) (by decide) (by decide) (by decide) p
+
+/-- `fs_clean_contents` applied (the `OnlyBelowC` hypothesis discharged for a
+    modelled body), `inputs_unchanged` (also above) and
+    `inputs_unchanged_generator` applied: every path — in particular the input
+    file with its three bytes — has afterwards the node it had before -/
+example (p : Path) : (bracketC ["tmp", "pyndlB"] (opsBody exOps .raised) exFS).1.get p = exFS.get p :=
+  fs_clean_contents ["tmp", "pyndlB"] _ (opsBody_onlyBelowC exOps .raised _) exFS
+    (fresh_of_entries _ _ (by decide +kernel)) p
+
+example :
+    (bracketC ["tmp", "pyndlB"] (opsBody exOps .returned) exFS).1.get ["data", "events.tab.gz"]
+      = some (.file [0x1f, 0x8b, 0x08]) ∧
+    (bracketC ["tmp", "pyndlB"] (opsBody exOps .returned) exFS).2 = .returned :=
+  inputs_unchanged ["tmp", "pyndlB"] exOps .returned exFS (fresh_of_entries _ _ (by decide +kernel))
+    ["data", "events.tab.gz"] [0x1f, 0x8b, 0x08] (by decide +kernel)
+
+example :
+    (generatorCallC ["tmp", "pyndlA"] ["tmp", "pyndlB"] [.write "events.tab.gz" [0x1f, 0x8b]] .returned
+      exOps .raised exFS).1.get ["data", "events.tab.gz"] = exFS.get ["data", "events.tab.gz"] :=
+  inputs_unchanged_generator ["tmp", "pyndlA"] ["tmp", "pyndlB"] [.write "events.tab.gz" [0x1f, 0x8b]] .returned
+    exOps .raised exFS (by decide) (by decide) (fresh_of_entries _ _ (by decide +kernel))
+    (fresh_of_entries _ _ (by decide +kernel)) ["data", "events.tab.gz"]
+
+/-- what the modelled bodies canNOT express, and the hypothesis excludes: a body
+    that overwrites the input file violates `OnlyBelowC` — such a body is ruled
+    out by ASSUMPTION for the real code, and by the differential run's sha256 -/
+example : ¬ OnlyBelowC ["tmp", "pyndlB"]
+    (fun _ fs => (fs.put ["data", "events.tab.gz"] (.file []), Exit.returned)) := by
+  intro h
+  have := h exFS ["data", "events.tab.gz"] (by decide)
+  revert this
+  decide +kernel
 
 /-! ### lemmas (not property theorems) -/
 
